@@ -270,7 +270,7 @@ def make(group):
 def body(ctx):
     quick = ctx.tier == "quick"
     groups = ["flippers", "autofire"]
-    res = bfs([make(g) for g in groups], 5 if quick else 7, observe=True)
+    res = bfs([make(g) for g in groups], 6 if quick else 7, observe=True)
     for s in res.samples[:3]:
         ctx.sample(s)
     for sig, (what, hist) in res.violations.items():
@@ -280,7 +280,7 @@ def body(ctx):
     ctx.add(states=res.states, transitions=res.transitions, traces_validated_against_impl=res.transitions,
             levels=res.levels, exhaustive=True)
     ctx.assume("fake game without ball devices (ball search and real drains are not part of this machine); service mode is "
-               "represented by its service_mode_entered/exited events", "BFS depth 5 (quick) / 7 (thorough) per device group",
+               "represented by its service_mode_entered/exited events", "BFS depth 6 (quick) / 7 (thorough) per device group",
                "an explicit enable request issued while the ball is not in play is honoured by MPF and not judged")
     return ("sw_flips", "autofire_hits", "ball_ends", "tilts", "service_entries", "dead_states")
 
